@@ -42,7 +42,7 @@ type C02Op struct {
 
 type C02Round struct {
 	Ops      []C02Op `json:"ops"`
-	Kill     string  `json:"kill"` // none | point | async
+	Kill     string  `json:"kill"` // none | point | async (armed by an ACK) | asynctry (armed by a TRY: lands inside Insert)
 	Point    string  `json:"point,omitempty"`
 	N        int     `json:"n,omitempty"`
 	AfterAck int     `json:"after_ack,omitempty"` // async: index (within the round) of the insert whose ACK arms the kill
@@ -62,7 +62,7 @@ type C02Case struct {
 }
 
 var c02Points = []string{
-	"table.entry.done", "insert.subvalue", "rs.insert.recv", "rs.insert.applied",
+	"insert.wal.before", "insert.wal.after", "table.entry.done", "insert.subvalue", "rs.insert.recv", "rs.insert.applied",
 	"flush.start", "flush.written", "flush.synced", "flush.closed", "flush.renamed", "flush.swapped",
 	"offsets.written", "offsets.synced", "offsets.renamed", "remove.before", "remove.after",
 }
@@ -102,8 +102,14 @@ func genC02Round(t *rapid.T, cfg *h.GenCfg, s *h.Schema, label string) C02Round 
 		r.N = rapid.IntRange(1, 6).Draw(t, label+".pn")
 	default:
 		r.Kill = "async"
+		if rapid.Bool().Draw(t, label+".ontry") {
+			r.Kill = "asynctry"
+		}
 		r.AfterAck = rapid.IntRange(0, nins-1).Draw(t, label+".after")
 		r.DelayUS = rapid.SampledFrom([]int{0, 50, 200, 1000, 3000, 8000}).Draw(t, label+".delay")
+		if r.Kill == "asynctry" {
+			r.DelayUS = rapid.SampledFrom([]int{0, 0, 20, 100}).Draw(t, label+".trydelay")
+		}
 	}
 	return r
 }
@@ -172,7 +178,7 @@ func TestC02Child(t *testing.T) {
 			time.Sleep(time.Duration(op.MS) * time.Millisecond)
 		}
 	}
-	if r.Kill == "async" {
+	if r.Kill == "async" || r.Kill == "asynctry" {
 		say("IDLE")
 		time.Sleep(30 * time.Second) // the parent kills us
 	}
@@ -259,6 +265,13 @@ func runC02Round(caseFile, dir string, c *C02Case, round, base int, crashAt stri
 		case strings.HasPrefix(line, "TRY "):
 			i, _ := strconv.Atoi(line[4:])
 			res.tried[i] = true
+			if r.Kill == "asynctry" && crashAt == "" && i-base == r.AfterAck {
+				d := time.Duration(r.DelayUS) * time.Microsecond
+				go func() {
+					time.Sleep(d)
+					cmd.Process.Signal(syscall.SIGKILL)
+				}()
+			}
 		case strings.HasPrefix(line, "ACK "):
 			i, _ := strconv.Atoi(line[4:])
 			res.acked[i] = true
@@ -276,7 +289,7 @@ func runC02Round(caseFile, dir string, c *C02Case, round, base int, crashAt stri
 		case line == "DONE":
 			res.done = true
 		case line == "IDLE":
-			if r.Kill == "async" {
+			if r.Kill == "async" || r.Kill == "asynctry" {
 				// the arming ACK may have been missed only if there was no insert
 				go func() {
 					time.Sleep(20 * time.Millisecond)
